@@ -286,3 +286,6 @@ func Disjoint(a, b any) bool { return nativeDisjoint(a, b) }
 // ForkReads makes reads at symbolic indexes case-split on the region of the
 // buffer they fall into (one small query per region instead of one large one).
 func ForkReads(on bool) {}
+
+// IsSkip reports whether a recovered panic value is a violated assumption.
+func IsSkip(r any) bool { _, ok := r.(skip); return ok }
